@@ -954,4 +954,388 @@ theorem pollKeepAlive_drop {peer : Nat → Nat} {now : Nat} (s : Svc) (h : SvcIn
   · right
     exact ⟨by simp [hin], (pollTimers_spec s.T now c s.tr).2 hin⟩
 
+/-! ### the system invariant -/
+
+theorem splitFirst_spec (i : Nat) : ∀ (l pre post : List (Nat × Msg)) (m : Msg),
+    splitFirst i l = some (pre, m, post) → l = pre ++ (i, m) :: post ∧ ∀ x ∈ pre, x.1 ≠ i := by
+  intro l
+  induction l with
+  | nil => intro pre post m h; simp [splitFirst] at h
+  | cons x r ih =>
+    intro pre post m h
+    unfold splitFirst at h
+    by_cases hx : x.1 = i
+    · simp only [hx, if_true, Option.some.injEq, Prod.mk.injEq] at h
+      obtain ⟨rfl, rfl, rfl⟩ := h
+      subst hx
+      exact ⟨rfl, fun _ h => (by cases h)⟩
+    · simp only [hx, if_false] at h
+      cases hr : splitFirst i r with
+      | none => simp [hr] at h
+      | some v =>
+        obtain ⟨pre', m', post'⟩ := v
+        simp only [hr, Option.some.injEq, Prod.mk.injEq] at h
+        obtain ⟨rfl, rfl, rfl⟩ := h
+        obtain ⟨e, hp⟩ := ih pre' post' m' hr
+        refine ⟨by rw [e]; rfl, fun y hy => ?_⟩
+        rcases List.mem_cons.mp hy with rfl | hy
+        · exact hx
+        · exact hp y hy
+
+/-- Two `ConnectionEstablished` for the same connection never wait for the same protocol. -/
+def EstOnce (a b : Nat × Msg) : Prop :=
+  ∀ p p' c, a.2 = Msg.established p c → b.2 = Msg.established p' c → a.1 ≠ b.1
+
+structure SysInv (peer : Nat → Nat) (n : Nat) (s : Sys) : Prop where
+  svc : ∀ svc ∈ s.svcs, SvcInv peer s.now svc
+  idsLt : ∀ svc ∈ s.svcs, ∀ c, svc.hasId c → c < n
+  est : ∀ i p c, (i, Msg.established p c) ∈ s.inbox → c < n ∧ peer c = p
+  closedPeer : ∀ i p c, (i, Msg.closed p c) ∈ s.inbox → peer c = p
+  estFresh : ∀ i p c svc, (i, Msg.established p c) ∈ s.inbox → s.svcs[i]? = some svc → ¬ svc.hasId c
+  estOnce : s.inbox.Pairwise EstOnce
+
+/-- Steps of the connection tasks that only append messages other than `ConnectionEstablished`. -/
+theorem SysInv.frame {peer : Nat → Nat} {n : Nat} {s s' : Sys} (h : SysInv peer n s) (hs : s'.svcs = s.svcs)
+    (hn : s'.now = s.now) (extra : List (Nat × Msg)) (hin : s'.inbox = s.inbox ++ extra)
+    (hne : ∀ x ∈ extra, (∀ p c, x.2 ≠ Msg.established p c) ∧ (∀ p c, x.2 = Msg.closed p c → peer c = p)) :
+    SysInv peer n s' := by
+  have hmem : ∀ i p c, (i, Msg.established p c) ∈ s'.inbox → (i, Msg.established p c) ∈ s.inbox := by
+    intro i p c hm
+    rw [hin] at hm
+    rcases List.mem_append.mp hm with hm | hm
+    · exact hm
+    · exact absurd rfl ((hne _ hm).1 p c)
+  refine ⟨by rw [hs, hn]; exact h.svc, by rw [hs]; exact h.idsLt, fun i p c hm => h.est i p c (hmem i p c hm), ?_,
+    fun i p c svc hm hsv => h.estFresh i p c svc (hmem i p c hm) (hs ▸ hsv), ?_⟩
+  · intro i p c hm
+    rw [hin] at hm
+    rcases List.mem_append.mp hm with hm | hm
+    · exact h.closedPeer i p c hm
+    · exact (hne _ hm).2 p c rfl
+  · rw [hin, List.pairwise_append]
+    refine ⟨h.estOnce, ?_, ?_⟩
+    · apply List.Pairwise.imp_of_mem (R := fun _ _ => True)
+      · intro a b _ hb _ p p' c _ hb2
+        exact absurd hb2 ((hne b hb).1 p' c)
+      · exact List.pairwise_of_forall (fun _ _ => trivial)
+    · intro a _ b hb p p' c _ hb2
+      exact absurd hb2 ((hne b hb).1 p' c)
+
+/-- Steps of protocol `i`: its state changes, it may have taken a message out of its channel. -/
+theorem SysInv.update {peer : Nat → Nat} {n : Nat} {s s' : Sys} (h : SysInv peer n s) (i : Nat) (svc' : Svc)
+    (hs : s'.svcs = setSvc s.svcs i svc') (hn : s'.now = s.now) (hsub : s'.inbox.Sublist s.inbox)
+    (hinv : SvcInv peer s.now svc') (hids : ∀ c, svc'.hasId c → c < n)
+    (hfresh : ∀ p c, (i, Msg.established p c) ∈ s'.inbox → ¬ svc'.hasId c) : SysInv peer n s' := by
+  have hset : ∀ x ∈ s'.svcs, x ∈ s.svcs ∨ x = svc' := by
+    intro x hx; rw [hs] at hx; exact List.mem_or_eq_of_mem_set hx
+  refine ⟨?_, ?_, fun j p c hm => h.est j p c (hsub.subset hm), fun j p c hm => h.closedPeer j p c (hsub.subset hm),
+    ?_, h.estOnce.sublist hsub⟩
+  · intro x hx
+    rw [hn]
+    rcases hset x hx with hx | rfl
+    · exact h.svc x hx
+    · exact hinv
+  · intro x hx
+    rcases hset x hx with hx | rfl
+    · exact h.idsLt x hx
+    · exact hids
+  · intro j p c x hm hx
+    rw [hs] at hx
+    unfold setSvc at hx
+    rw [List.getElem?_set] at hx
+    by_cases hij : i = j
+    · subst hij
+      simp only [if_true] at hx
+      split at hx
+      · cases hx; exact hfresh p c hm
+      · cases hx
+    · simp only [hij, if_false] at hx
+      exact h.estFresh j p c x (hsub.subset hm) hx
+
+theorem timersSettled_spec (s : Sys) (dt : Nat) (h : timersSettled s dt = true) :
+    ∀ svc ∈ s.svcs, ∀ t ∈ svc.tr.timers, ∃ d, t.deadline = some d ∧ s.now + dt ≤ d := by
+  intro svc hsvc t ht
+  unfold timersSettled at h
+  rw [List.all_eq_true] at h
+  have := h svc hsvc
+  rw [List.all_eq_true] at this
+  have := this t ht
+  cases hd : t.deadline with
+  | none => rw [hd] at this; cases this
+  | some d => rw [hd] at this; exact ⟨d, rfl, by simpa using this⟩
+
+/-- Reachable states: from a system without connections by the real operations, under the environment
+hypothesis built into `Sys.step` (`advance`). The `Nat` is the ghost counter of connection ids. -/
+inductive Reach (peer : Nat → Nat) : Nat → Sys → Prop
+  | init (cfg : List (Bool × Nat)) : Reach peer 0 (Sys.init cfg)
+  | step {n n' : Nat} {s s' : Sys} (l : Label) : Reach peer n s → s.step peer n l = some (n', s') → Reach peer n' s'
+
+theorem Reach.steps {peer : Nat → Nat} (ls : List Label) : ∀ {n n' : Nat} {s s' : Sys}, Reach peer n s →
+    Sys.steps peer n s ls = some (n', s') → Reach peer n' s' := by
+  induction ls with
+  | nil => intro n n' s s' h he; simp only [Sys.steps, Option.some.injEq, Prod.mk.injEq] at he; obtain ⟨rfl, rfl⟩ := he; exact h
+  | cons l ls ih =>
+    intro n n' s s' h he
+    simp only [Sys.steps] at he
+    cases hst : s.step peer n l with
+    | none => rw [hst] at he; cases he
+    | some v =>
+      obtain ⟨n1, s1⟩ := v
+      rw [hst] at he
+      exact ih (Reach.step l h hst) he
+
+theorem init_inv (peer : Nat → Nat) (cfg : List (Bool × Nat)) : SysInv peer 0 (Sys.init cfg) := by
+  have hsv : ∀ svc ∈ (Sys.init cfg).svcs, svc.conns = [] ∧ svc.tr = {} := by
+    intro svc hsvc
+    simp only [Sys.init, List.mem_map] at hsvc
+    obtain ⟨x, _, rfl⟩ := hsvc
+    exact ⟨rfl, rfl⟩
+  refine ⟨?_, ?_, fun i p c hm => (by cases hm), fun i p c hm => (by cases hm), fun i p c svc hm => (by cases hm),
+    List.Pairwise.nil⟩
+  · intro svc hsvc
+    obtain ⟨h1, h2⟩ := hsv svc hsvc
+    refine ⟨(by rw [KeysOk, h1]; intro e he; cases he), (by rw [h1]; intro e he; cases he),
+      (by rw [h1]; intro e he; cases he), ?_, ?_⟩
+    · rw [h2]; exact ⟨fun c la hla => by simp [aget] at hla, fun t ht => by cases ht⟩
+    · intro c hpos
+      rw [holds_eq, h1] at hpos; simp at hpos
+  · intro svc hsvc c hc
+    obtain ⟨h1, _⟩ := hsv svc hsvc
+    obtain ⟨e, he, _⟩ := hc
+    rw [h1] at he; cases he
+
+theorem SysInv.sub {peer : Nat → Nat} {n : Nat} {s s' : Sys} (h : SysInv peer n s) (hs : s'.svcs = s.svcs)
+    (hn : s'.now = s.now) (hsub : s'.inbox.Sublist s.inbox) : SysInv peer n s' :=
+  ⟨by rw [hs, hn]; exact h.svc, by rw [hs]; exact h.idsLt, fun j p c hm => h.est j p c (hsub.subset hm),
+    fun j p c hm => h.closedPeer j p c (hsub.subset hm),
+    fun j p c x hm hx => h.estFresh j p c x (hsub.subset hm) (hs ▸ hx), h.estOnce.sublist hsub⟩
+
+theorem SysInv.fresh_of_subset {peer : Nat → Nat} {n : Nat} {s : Sys} (h : SysInv peer n s) {i : Nat} {svc svc' : Svc}
+    (hi : s.svcs[i]? = some svc) (hids : ∀ c, svc'.hasId c → svc.hasId c) {inbox' : List (Nat × Msg)}
+    (hsub : inbox'.Sublist s.inbox) : ∀ p c, (i, Msg.established p c) ∈ inbox' → ¬ svc'.hasId c :=
+  fun p c hm hc => h.estFresh i p c svc (hsub.subset hm) hi (hids c hc)
+
+theorem open_shape (s : Sys) (i p : Nat) (P : Sys → Prop) (h0 : P s)
+    (h1 : ∀ svc up send sid s', s.svcs[i]? = some svc →
+      s'.svcs = setSvc s.svcs i (svc.openSubstream p s.now up send sid).1 →
+      s'.inbox = s.inbox → s'.now = s.now → P s') : P (s.open i p).1 := by
+  unfold Sys.open
+  cases hsv : s.svcs[i]? with
+  | none => exact h0
+  | some svc =>
+    simp only []
+    split
+    · exact h1 svc _ _ _ _ hsv rfl rfl rfl
+    · exact h1 svc _ _ _ _ hsv rfl rfl rfl
+
+theorem established_inv {peer : Nat → Nat} {n : Nat} {s : Sys} (h : SysInv peer n s) (c : Nat) (hc : n ≤ c) :
+    SysInv peer (c + 1) (s.established (peer c) c) := by
+  have hnew : ∀ x ∈ (List.range s.svcs.length).map (fun i => (i, Msg.established (peer c) c)),
+      x.2 = Msg.established (peer c) c := by
+    intro x hx
+    obtain ⟨j, _, rfl⟩ := List.mem_map.mp hx
+    rfl
+  refine ⟨h.svc, fun svc hsvc c' hc' => by have := h.idsLt svc hsvc c' hc'; omega, ?_, ?_, ?_, ?_⟩
+  · intro i p c' hm
+    rcases List.mem_append.mp hm with hm | hm
+    · have := h.est i p c' hm; exact ⟨by omega, this.2⟩
+    · have := hnew _ hm
+      simp only [Msg.established.injEq] at this
+      obtain ⟨rfl, rfl⟩ := this
+      exact ⟨by omega, rfl⟩
+  · intro i p c' hm
+    rcases List.mem_append.mp hm with hm | hm
+    · exact h.closedPeer i p c' hm
+    · have := hnew _ hm; cases this
+  · intro i p c' svc hm hsv
+    rcases List.mem_append.mp hm with hm | hm
+    · exact h.estFresh i p c' svc hm hsv
+    · have := hnew _ hm
+      simp only [Msg.established.injEq] at this
+      obtain ⟨rfl, rfl⟩ := this
+      intro hid
+      have := h.idsLt svc (List.mem_of_getElem? hsv) c' hid
+      omega
+  · show (s.inbox ++ _).Pairwise EstOnce
+    rw [List.pairwise_append]
+    refine ⟨h.estOnce, ?_, ?_⟩
+    · rw [List.pairwise_map]
+      apply List.Pairwise.imp _ List.pairwise_lt_range
+      intro a b hab p p' c' _ _
+      simp only []; omega
+    · intro a ha b hb p p' c' ha2 hb2
+      have hb3 := hnew b hb
+      rw [hb2] at hb3
+      simp only [Msg.established.injEq] at hb3
+      obtain ⟨_, rfl⟩ := hb3
+      have := (h.est a.1 p c' (by rw [← ha2]; exact ha)).1
+      omega
+
+theorem step_inv {peer : Nat → Nat} {n n' : Nat} {s s' : Sys} (l : Label) (h : SysInv peer n s)
+    (hst : s.step peer n l = some (n', s')) : SysInv peer n' s' := by
+  cases l with
+  | established c =>
+    simp only [Sys.step] at hst
+    by_cases hc : n ≤ c
+    · simp only [hc, if_true, Option.some.injEq, Prod.mk.injEq] at hst
+      obtain ⟨rfl, rfl⟩ := hst
+      exact established_inv h c hc
+    · simp [hc] at hst
+  | closed c =>
+    simp only [Sys.step] at hst
+    split at hst
+    · simp only [Option.some.injEq, Prod.mk.injEq] at hst
+      obtain ⟨rfl, rfl⟩ := hst
+      refine h.frame rfl rfl _ rfl ?_
+      intro x hx
+      obtain ⟨j, _, rfl⟩ := List.mem_map.mp hx
+      exact ⟨fun p c' hh => (by cases hh), fun p c' hh => (by cases hh; rfl)⟩
+    · cases hst
+  | «open» i p =>
+    simp only [Sys.step, Option.some.injEq, Prod.mk.injEq] at hst
+    obtain ⟨rfl, rfl⟩ := hst
+    apply open_shape s i p
+    · exact h
+    · intro svc up send sid s' hsv h1 h2 h3
+      have hin := h.svc svc (List.mem_of_getElem? hsv)
+      obtain ⟨k1, k2, _⟩ := openSubstream_inv svc p up send sid hin
+      have hsub : s'.inbox.Sublist s.inbox := by rw [h2]; exact List.Sublist.refl _
+      exact h.update i _ h1 h3 hsub k1
+        (fun c hc => h.idsLt svc (List.mem_of_getElem? hsv) c (k2 c hc)) (h.fresh_of_subset hsv k2 hsub)
+  | recv c =>
+    simp only [Sys.step, Option.some.injEq, Prod.mk.injEq] at hst
+    obtain ⟨rfl, rfl⟩ := hst
+    unfold Sys.recv
+    split
+    · exact h.frame rfl rfl [] (by simp) (fun x hx => by cases hx)
+    · exact h
+  | subOpen c sid =>
+    simp only [Sys.step, Option.map_eq_some_iff, Prod.mk.injEq] at hst
+    obtain ⟨s1, hs1, rfl, rfl⟩ := hst
+    unfold Sys.subOpen at hs1
+    split at hs1
+    · simp only [Option.some.injEq] at hs1
+      subst hs1
+      refine h.frame rfl rfl _ rfl ?_
+      intro x hx
+      simp only [List.mem_singleton] at hx
+      subst hx
+      exact ⟨fun p c' hh => (by cases hh), fun p c' hh => (by cases hh)⟩
+    · cases hs1
+  | subFail c sid =>
+    simp only [Sys.step, Option.map_eq_some_iff, Prod.mk.injEq] at hst
+    obtain ⟨s1, hs1, rfl, rfl⟩ := hst
+    unfold Sys.subFail at hs1
+    split at hs1
+    · simp only [Option.some.injEq] at hs1
+      subst hs1
+      refine h.frame rfl rfl _ rfl ?_
+      intro x hx
+      simp only [List.mem_singleton] at hx
+      subst hx
+      exact ⟨fun p c' hh => (by cases hh), fun p c' hh => (by cases hh)⟩
+    · cases hs1
+  | subInbound c i =>
+    simp only [Sys.step, Option.some.injEq, Prod.mk.injEq] at hst
+    obtain ⟨rfl, rfl⟩ := hst
+    unfold Sys.subInbound
+    split
+    · split
+      · exact h
+      · refine h.frame rfl rfl _ rfl ?_
+        intro x hx
+        simp only [List.mem_singleton] at hx
+        subst hx
+        exact ⟨fun p c' hh => (by cases hh), fun p c' hh => (by cases hh)⟩
+    · exact h
+  | dropSub i k =>
+    simp only [Sys.step, Option.map_eq_some_iff, Prod.mk.injEq] at hst
+    obtain ⟨s1, hs1, rfl, rfl⟩ := hst
+    unfold Sys.dropSub at hs1
+    simp only [] at hs1
+    split at hs1
+    · simp only [Option.some.injEq] at hs1
+      subst hs1
+      exact h.frame rfl rfl [] (by simp) (fun x hx => by cases hx)
+    · cases hs1
+  | deliver i =>
+    simp only [Sys.step] at hst
+    cases hsp : splitFirst i s.inbox with
+    | none => rw [hsp] at hst; cases hst
+    | some v =>
+      obtain ⟨pre, m, post⟩ := v
+      rw [hsp] at hst
+      simp only [Option.some.injEq, Prod.mk.injEq] at hst
+      obtain ⟨rfl, rfl⟩ := hst
+      obtain ⟨hbox, _⟩ := splitFirst_spec i _ _ _ _ hsp
+      have hsub : (pre ++ post).Sublist s.inbox := by
+        rw [hbox]; exact List.Sublist.append (List.Sublist.refl _) (List.sublist_cons_self _ _)
+      have hmsg : (i, m) ∈ s.inbox := by rw [hbox]; simp
+      unfold Sys.deliver
+      simp only []
+      cases hsv : s.svcs[i]? with
+      | none => exact h.sub rfl rfl hsub
+      | some svc =>
+        have hin := h.svc svc (List.mem_of_getElem? hsv)
+        have hlt := h.idsLt svc (List.mem_of_getElem? hsv)
+        simp only []
+        cases m with
+        | established p c =>
+          simp only []
+          obtain ⟨hcn, hpc⟩ := h.est i p c hmsg
+          obtain ⟨k1, k2⟩ := onEstablished_inv svc p c hin hpc (h.estFresh i p c svc hmsg hsv)
+          refine h.update i _ rfl rfl hsub k1 ?_ ?_
+          · intro c' hc'
+            rcases k2 c' hc' with hc' | rfl
+            · exact hlt c' hc'
+            · exact hcn
+          · intro p' c' hm hc'
+            rcases k2 c' hc' with hc' | rfl
+            · exact h.estFresh i p' c' svc (hsub.subset hm) hsv hc'
+            · have hpw := h.estOnce
+              rw [hbox, List.pairwise_append] at hpw
+              obtain ⟨_, hpost, hcross⟩ := hpw
+              rcases List.mem_append.mp hm with hm | hm
+              · exact hcross _ hm _ List.mem_cons_self p' p c' rfl rfl rfl
+              · exact (List.pairwise_cons.mp hpost).1 _ hm p p' c' rfl rfl rfl
+        | closed p c =>
+          simp only []
+          obtain ⟨k1, k2, _⟩ := onClosed_inv svc p c hin (h.closedPeer i p c hmsg)
+          exact h.update i _ rfl rfl hsub k1 (fun c' hc' => hlt c' (k2 c' hc')) (h.fresh_of_subset hsv k2 hsub)
+        | subOpened p dir c life =>
+          simp only []
+          obtain ⟨k1, k2, _⟩ := onSubstreamOpened_inv svc p c hin
+          exact h.update i _ rfl rfl hsub k1 (fun c' hc' => hlt c' (k2 c' hc')) (h.fresh_of_subset hsv k2 hsub)
+        | subFailed sid => exact h.sub rfl rfl hsub
+  | poll i =>
+    simp only [Sys.step] at hst
+    cases hsv : s.svcs[i]? with
+    | none => rw [hsv] at hst; cases hst
+    | some svc =>
+      rw [hsv] at hst
+      simp only [Option.some.injEq, Prod.mk.injEq] at hst
+      obtain ⟨rfl, rfl⟩ := hst
+      have hin := h.svc svc (List.mem_of_getElem? hsv)
+      obtain ⟨k1, k2⟩ := pollKeepAlive_inv svc hin
+      exact h.update i _ rfl rfl (List.Sublist.refl _) k1
+        (fun c' hc' => h.idsLt svc (List.mem_of_getElem? hsv) c' (k2 c' hc'))
+        (h.fresh_of_subset hsv k2 (List.Sublist.refl _))
+  | advance dt =>
+    simp only [Sys.step] at hst
+    split at hst
+    · rename_i hg
+      simp only [Option.some.injEq, Prod.mk.injEq] at hst
+      obtain ⟨rfl, rfl⟩ := hst
+      have hset := timersSettled_spec s dt hg
+      refine ⟨?_, h.idsLt, h.est, h.closedPeer, h.estFresh, h.estOnce⟩
+      intro svc hsvc
+      have hi := h.svc svc hsvc
+      exact ⟨hi.keys, hi.distinct, hi.peerOk, advance_ok _ _ _ _ hi.tr (hset svc hsvc), hi.held⟩
+    · cases hst
+
+theorem Reach.inv {peer : Nat → Nat} {n : Nat} {s : Sys} (h : Reach peer n s) : SysInv peer n s := by
+  induction h with
+  | init cfg => exact init_inv peer cfg
+  | step l _ hst ih => exact step_inv l ih hst
+
 end Litep2pVerif.Service.KA
